@@ -102,8 +102,8 @@ def goUnix (sec nsec : Int) : GoTime :=
 /-- Time.abs (l.471) with offset 0 -/
 def goAbs (t : GoTime) : Int := t.sec + 9223372028715321600
 
-/-- absDate (l.1012), full = true: (year, month 1..12, day) -/
-def goAbsDate (abs : Int) : Int × Int × Int :=
+/-- absDate (l.1012) up to the `if !full { return }` point: (year, yday) -/
+def goYearDay (abs : Int) : Int × Int :=
   let d := abs / 86400
   let n := d / 146097
   let y := 400 * n
@@ -119,15 +119,24 @@ def goAbsDate (abs : Int) : Int × Int × Int :=
   let n := n - n / 4
   let y := y + n
   let d := d - 365 * n
-  let year := y + absoluteZeroYear
-  let day := d
-  if goIsLeap year && day = 59 then (year, 2, 29)
+  (y + absoluteZeroYear, d)
+
+/-- the rest of absDate (l.1053–1082): (month 1..12, day of month) from yday -/
+def goMonthDay (leap : Bool) (yday : Int) : Int × Int :=
+  let day := yday
+  if leap && day = 59 then (2, 29)
   else
-    let day := if goIsLeap year && day > 59 then day - 1 else day
+    let day := if leap && day > 59 then day - 1 else day
     let month := day / 31
     let e := goDaysBefore (month + 1)
-    if day ≥ e then (year, month + 2, day - e + 1)
-    else (year, month + 1, day - goDaysBefore month + 1)
+    if day ≥ e then (month + 2, day - e + 1)
+    else (month + 1, day - goDaysBefore month + 1)
+
+/-- absDate (l.1012), full = true: (year, month 1..12, day) -/
+def goAbsDate (abs : Int) : Int × Int × Int :=
+  let (year, yday) := goYearDay abs
+  let (month, day) := goMonthDay (goIsLeap year) yday
+  (year, month, day)
 
 def goYear (t : GoTime) : Int := (goAbsDate (goAbs t)).1
 def goMonth (t : GoTime) : Int := (goAbsDate (goAbs t)).2.1
@@ -186,6 +195,11 @@ def newDate (v : FV) : DateObj := zeroDateObj.set v
 /-- timeToEpoch (l.122): float64(time.UnixMilli()) -/
 def timeToEpoch (t : GoTime) : FV := ofInt (goUnixMilli t)
 
+/-- the last two statements of newDateTime (l.219–220) on converted fields:
+    time.Date(year, month+1, day, hour, minute, second, ms*1000*1000, UTC).UnixMilli() -/
+def dateCore (year month day hour minute second ms : Int) : Int :=
+  goUnixMilli (goDate year (month + 1) day hour minute second (ms * 1000000))
+
 /-- newDateTime (l.166), the ≥2-argument branch, location with offset 0.
     Result: `none` = NaN, `some ms` = float64(ms). -/
 def newDateTime (args : List FV) : Num :=
@@ -196,9 +210,8 @@ def newDateTime (args : List FV) : Num :=
   match pick 0 (.fin false 1900 0), pick 1 zero, pick 2 one, pick 3 zero, pick 4 zero, pick 5 zero, pick 6 zero with
   | some year, some month, some day, some hour, some minute, some second, some ms =>
     let year := if le zero year && le year (.fin false 99 0) then add year (.fin false 1900 0) else year
-    let t := goDate (C05.goInt64 year) (C05.goInt64 month + 1) (C05.goInt64 day) (C05.goInt64 hour)
-               (C05.goInt64 minute) (C05.goInt64 second) (C05.goInt64 ms * 1000 * 1000)
-    some (goUnixMilli t)
+    some (dateCore (C05.goInt64 year) (C05.goInt64 month) (C05.goInt64 day) (C05.goInt64 hour)
+               (C05.goInt64 minute) (C05.goInt64 second) (C05.goInt64 ms))
   | _, _, _, _, _, _, _ => none
 
 -- ---------------------------------------------------------------- builtin_date.go getters
@@ -281,6 +294,11 @@ def applySetter (k : Setter) (e : EcmaTime) (v : List Int) : EcmaTime :=
   | .year, [a, b, c] => { e with day := c, month := b, year := a }
   | _, _ => e
 
+/-- what a setUTC* body computes from the stored time and the converted arguments:
+    ecmaTime.goTime().UnixMilli() after the field updates -/
+def setCore (k : Setter) (tm : GoTime) (vs : List Int) : Int :=
+  goUnixMilli (applySetter k (newEcmaTime tm) vs).goTime
+
 /-- setTime (l.107) and builtinDateBeforeSet (l.115) + the setUTC* bodies: (new object state, return value) -/
 def setUTC (k : Setter) (d : DateObj) (args : List FV) : DateObj × Num :=
   match k with
@@ -295,8 +313,7 @@ def setUTC (k : Setter) (d : DateObj) (args : List FV) : DateObj × Num :=
       else match numberArgs args with
         | none => (invalidDateObject, none)
         | some vs =>
-          let e := applySetter k (newEcmaTime d.time) vs
-          let d' := d.set (timeToEpoch e.goTime)
+          let d' := d.set (ofInt (setCore k d.time vs))      -- date.SetTime(ecmaTime.goTime())
           (d', d'.value)
 
 def runSetters (d : DateObj) : List (Setter × List FV) → DateObj × List Num
